@@ -139,7 +139,8 @@ def validate_traces(check, ctx, tw, pool, spec, cfg, tag="trace", env_extra=None
                 with open(path) as f:
                     lines = f.read().split("\n")
             rec = json.loads(lines[l - 1])
-            viols.append({"invariant": v["name"], "file": path, "line": l, "record": rec})
+            viols.append({"invariant": v["name"], "file": path, "line": l, "record": rec, "spec": spec, "cfg": cfg,
+                          "full_trace": [json.loads(x) for x in lines[l - 1 - rec["i"]:] if x.strip()][:rec["i"] + 4]})
     # de-duplicate (an invariant violated at line l is reported once per behaviour reaching it)
     seen = set()
     uniq = []
@@ -194,6 +195,35 @@ def parallel(modname, fname, jobs, nproc=None):
 
 
 # ----------------------------------------------------------------------------- main
+def replay(pid, path):
+    """re-validate the recorded trace(s) of a replay file with TLC: prints which clause fails at which recorded state"""
+    with open(path) as f:
+        rp = json.load(f)
+    work = os.path.join(VERIF, ".work", "replay_%s" % pid)
+    shutil.rmtree(work, ignore_errors=True)
+    os.makedirs(work, exist_ok=True)
+    status = 0
+    for n, v in enumerate(rp.get("violations", [])):
+        tr = v.get("full_trace") or []
+        if not tr or not v.get("spec"):
+            print("violation %d: clause %s at %s (no trace stored)" % (n, v["invariant"], json.dumps(v["record"])[:300]))
+            continue
+        # keep the lines of this trace only, renumbered
+        t0 = tr[0].get("t")
+        tr = [e for e in tr if e.get("t") == t0]
+        fn = os.path.join(work, "replay_%d.ndjson" % n)
+        with open(fn, "w") as f:
+            for e in tr:
+                f.write(json.dumps(e) + "\n")
+        r = tlc.run(v["spec"], v["cfg"], workers=1, cont=True, env={"TRACE_FILE": fn}, workdir=work)
+        names = r.violated_names()
+        print("violation %d: recorded clause %s; TLC on the stored trace (%d lines): %s" % (
+            n, v["invariant"], len(tr), ("violates " + ", ".join(names)) if names else "no violation" + (" " + str(r.errors[:1]) if r.errors else "")))
+        if names:
+            status = 1
+    return status
+
+
 def write_evidence(pid, ev):
     edir = os.path.join(VERIF, "evidence")
     if os.environ.get("VERIF_REPO"):          # a run against another tree (seeded change) never touches the real evidence
